@@ -181,6 +181,21 @@ def run(res, tier, seed):
                 res.nontrivial.add(t)
     res.sample({'abstract': cases[0]['q'], 'respellings': [t['py'] for t in all_texts[:4]]})
     engine_corr.run_cases(res, 'C08', all_cases, 'py', texts=all_texts)
+    # the same through the REAL rbql-js engine (its parser is a separate implementation): respelled in JS syntax
+    import corr_C19
+    js_cases, js_texts = [], []
+    for c in cases:
+        if not corr_C19.in_class(c):
+            continue
+        base_py = qgen.render_query(c['q'], 'py')
+        base_js = qgen.render_query(c['q'], 'js')
+        for t in [base_js] + [respell(c['q'], rnd, 'js') for _ in range(max(K // 2, 2))]:
+            js_cases.append(c)
+            js_texts.append({'py': base_py, 'js': t})
+            if t != base_js:
+                res.nontrivial.add('js|' + t)
+    res.count('js_respellings', len(js_cases))
+    engine_corr.run_cases(res, 'C08', js_cases, 'js', texts=js_texts, valid=corr_C19.in_class)
 
 
 def replay(res, path):
